@@ -154,3 +154,8 @@ add("C28", "exploration", "pyleg",
     "exhaustive conformance of the pure-python helpers against the Rust core and independent oracles",
     "sexp_to_bytes and the forced pure-python deserialize_as_tuples fallback on every tree of TREES(4|5,A6); sexp_from_stream on ~33k byte strings (all short strings, every length-prefix class with size bytes over {00,01,ff} up to 7 bytes and short/exact/long bodies) against the Rust classic decoder; int_to_bytes/int_from_bytes on every integer in +-2^12|2^17 and +-2^k+-d (k<=130) against an independent minimal encoder and the Rust interpreter; curry/uncurry/curry_hash/run-equivalence on 20|40 modules x 260 argument lists.",
     "Independent oracles are ~100 lines of python at the top of pyref/pyleg.py (reference classic codec, hashlib tree hash, minimal integer encoder).")
+
+add("C32", "model_checking", "pyleg",
+    "exhaustive enumeration of structured argument lists, the operators inside the built wheel against from-scratch reference implementations",
+    "About 8.5k argument lists: sha256 / keccak256 over arity <=3|4 incl. block-boundary lengths and pairs, coinid over id lengths x all amount encodings, secp256k1/r1 verify (opcodes 64/65 and the 4-byte opcodes) over 13 key encodings x 7 digests x 14 signatures, BLS point_add / g1_subtract / g2_add / g2_subtract over every list of arity <=2|3 over a 15-/12-point alphabet (infinity, multiples of G, outside the subgroup, x>=p, flag-bit corruptions, wrong lengths, pair), negate with and without RELAXED_BLS, multiply / pubkey_for_exp over 12 scalars, g1/g2_map over messages x DSTs, pairing identity and bls_verify with signatures produced by the reference; each must give the same bytes / the same accept-reject decision as pyref.",
+    "pyref (pyref/bls.py, h2c.py, c32leg.py) is written from scratch: BLS12-381 tower, optimal-ate pairing, (de)compression with subgroup check, RFC 9380 hash-to-curve, Weierstrass ECDSA, Keccak-f. Curve constants are self-validated (on-curve, r*G = infinity); the 11-/3-isogeny coefficient tables are parsed from the blst C sources in the local cargo registry and pyref must reproduce blspy vectors of the repository at start-up; sha256 is hashlib's. Known finding: secp256k1 rejects high-s signatures.")
